@@ -302,7 +302,12 @@ func genResult(t *rapid.T, g refGen, op *Op) {
 		name = oneOf(t, []string{"out/run%41.log", "out/coverage-100%.md", "out/a b#c?.txt", "out/ünï/r.txt", "out/%zz.txt"}, "res.odd")
 	}
 	content := oneOf(t, []string{"alpha", "beta\n", "", "γάμμα"}, "res.content")
-	op.Files = append(op.Files, FileSpec{Path: name, Content: content})
+	fs := FileSpec{Path: name, Content: content}
+	if pct(t, 5, "res.bigfile") {
+		// larger than any buffer a hasher might stream through, and not a whole number of them
+		fs.Fill = oneOf(t, []int{1<<20 + 1, 1 << 20, 2<<20 + 1<<19 + 17, 3 << 20, 65537, 4<<20 - 1}, "res.bigsize")
+	}
+	op.Files = append(op.Files, fs)
 	path := name
 	switch between(t, 0, 9, "res.shape") {
 	case 0:
@@ -603,7 +608,21 @@ func seqInts(n int) []int {
 func damagePlan(t *rapid.T, op *Op) {
 	d := op.Plan
 	n := len(d.Tasks)
-	switch between(t, 0, 11, "plan.damage") {
+	switch between(t, 0, 13, "plan.damage") {
+	case 12, 13:
+		// an after entry that is a title plus white space names no task
+		if n >= 2 && d.Tasks[0].Title != nil {
+			ref := *d.Tasks[0].Title
+			near := oneOf(t, []string{ref + " ", " " + ref, ref + "\t"}, "plan.near")
+			for _, x := range d.Tasks {
+				if x.Title != nil && *x.Title == near {
+					near = "no such task"
+				}
+			}
+			d.Tasks[n-1].After = append(d.Tasks[n-1].After, near)
+			return
+		}
+		d.Tasks[n-1].After = append(d.Tasks[n-1].After, "no such task")
 	case 0:
 		if n >= 2 {
 			d.Tasks[n-1].Title = sp(*d.Tasks[0].Title)
